@@ -10,6 +10,7 @@ import (
 
 	"github.com/fxamacker/cbor/v2"
 	"github.com/ldclabs/cose/cose"
+	"github.com/ldclabs/cose/cwt"
 	"github.com/ldclabs/cose/iana"
 	"github.com/ldclabs/cose/key"
 )
@@ -1453,6 +1454,39 @@ func streamMsgParts(c *ctx) {
 			bad.m = [][2]*citem{{{kind: 0, n: 1<<31 - 1}, {kind: 0, n: 1}}, {{kind: 1, n: 1<<31 - 1}, {kind: 3, b: []byte("ok")}}}
 		}
 		hdec(bad.enc(nil), "labels")
+		// labels that are integer-like but neither a CBOR integer nor text: bignums, tagged integers, floats with an
+		// integral value, simple values; alone, next to integer labels, and inside a nested header value
+		{
+			one := &citem{kind: 0, n: uint64(1 + c.r.intn(20))}
+			odd := []*citem{
+				{kind: 6, n: 2, v: &citem{kind: 2, b: []byte{byte(1 + c.r.intn(20))}}},
+				{kind: 6, n: 3, v: &citem{kind: 2, b: []byte{byte(c.r.intn(20))}}},
+				{kind: 6, n: 100, v: one}, {kind: 6, n: 1, v: one}, // (tag 55799, self-described CBOR, has no meaning of its own: the label is the integer)
+				{kind: 8, ai: 25, n: 0x3c00}, {kind: 8, ai: 27, n: 0x4000000000000000}, {kind: 7, n: 21}, {kind: 7, n: 22},
+				{kind: 4, l: []*citem{one}}, {kind: 6, n: 2, v: &citem{kind: 2, b: []byte{}}},
+			}
+			lab := pick(c.r, odd)
+			om := &citem{kind: 5, m: [][2]*citem{{lab, {kind: 0, n: 7}}}}
+			if c.r.bool() {
+				om.m = append(om.m, [2]*citem{{kind: 0, n: 33}, {kind: 2, b: []byte("v")}}, [2]*citem{{kind: 1, n: 40}, {kind: 0, n: 1}})
+			}
+			d := om.enc(nil)
+			hdec(d, "labels-not-int-or-text")
+			line := short(fmt.Sprintf("headers-dec|labels-not-int-or-text|%x", d))
+			if _, derr := cose.HeadersFromBytes(d); derr == nil {
+				c.fail(failure{Op: "labels", What: "a header map with a label that is neither an integer nor text is accepted", Input: line, Observed: "decoded", Expected: "an error", Case: line, Theorem: "C08_labels"})
+			}
+			var kk key.Key
+			if key.UnmarshalCBOR(d, &kk) == nil {
+				c.fail(failure{Op: "labels", What: "a key map with a label that is neither an integer nor text is accepted", Input: line, Observed: describe(kk), Expected: "an error", Case: line, Theorem: "C08_labels"})
+			}
+			var cm cwt.ClaimsMap
+			if key.UnmarshalCBOR(d, &cm) == nil {
+				c.fail(failure{Op: "labels", What: "a claims map with a label that is neither an integer nor text is accepted", Input: line, Observed: describe(cm), Expected: "an error", Case: line, Theorem: "C08_labels"})
+			}
+			c.eval()
+			c.eval()
+		}
 		// unsigned labels at the top of the 64-bit range must not wrap into the negative 32-bit labels
 		big := pick(c.r, []uint64{1<<64 - 1, 1<<64 - 1<<31, 1 << 63, 1<<63 - 1, 1<<64 - 1<<31 - 1, 1 << 32, 1<<32 + 5})
 		wrap := &citem{kind: 5, m: [][2]*citem{{{kind: 0, n: big}, {kind: 0, n: 1}}}}
